@@ -5,7 +5,7 @@ import itertools
 
 import numpy as np
 
-from .. import gen, ref
+from .. import contracts, gen, ref
 from ..core import FAILED
 
 DECIDING = ["pred:is_completely_positive", "pred:is_herm_preserving", "pred:is_trace_preserving", "pred:is_unital", "pred:is_unitary",
@@ -36,6 +36,11 @@ def cases(tier):
         for r in range(12 if tier == "quick" else 300):
             out.append(("builtin", name, r))
     return out
+
+
+def setup(ctx):
+    # internal calls of apply_channel / kraus_to_choi (made by the predicates, dual / partial channels ...) are observed as well
+    contracts.install(ctx, contracts.CHANNEL_CONTRACTS)
 
 
 def run(ctx, spec, rng):
